@@ -62,8 +62,24 @@ func (r *Result) logf(format string, a ...any) {
 			return n
 		})
 	}
+	if strings.Contains(line, ".tmp-") {
+		// os.CreateTemp names: renamed by first appearance
+		line = tmpNamePattern.ReplaceAllStringFunc(line, func(raw string) string {
+			if r.ids == nil {
+				r.ids = map[string]string{}
+			}
+			if n, ok := r.ids[raw]; ok {
+				return n
+			}
+			n := fmt.Sprintf(".tmp-N%d", len(r.ids)+1)
+			r.ids[raw] = n
+			return n
+		})
+	}
 	r.Events = append(r.Events, fmt.Sprintf("%04d ", len(r.Events))+line)
 }
+
+var tmpNamePattern = regexp.MustCompile(`\.tmp-[0-9]+`)
 
 // namer renames run-time generated ids by first appearance so that event logs
 // of two executions of one program are byte-identical.
